@@ -134,18 +134,59 @@ def _judge(model, cls, kind, sym, fields, pss, mem):
             return ok, f"reduce(operator.{fn}, children)" if ok else \
                 (f"result is not reduce(operator.{fn}, rec(children)): "
                  f"{ast.unparse(rets[0].items[-1][1])}")
-        if sym in ("or", "and", "min", "max"):
-            fn = {"or": "any", "and": "all"}.get(sym, sym)
-            ok = rv[0] == "call" and rv[1] == fn and _seq_over(rv[2][0], f)
-            if ok and sym in ("or", "and") and rv[2][0][1] != "gen":
-                # Python's and/or stop at the deciding operand; any()/all()
-                # do so only when handed a lazy iterable
+        if sym in ("or", "and"):
+            fn = {"or": "any", "and": "all"}[sym]
+            if rv[0] == "call" and rv[1] == fn and _seq_over(rv[2][0], f):
+                if rv[2][0][1] != "gen":
+                    # Python's and/or stop at the deciding operand
+                    return False, (
+                        f"{fn}() is handed a fully built {rv[2][0][1]} of the "
+                        "evaluated operands: every operand is evaluated before "
+                        f"the first is looked at, so '{sym}' no longer stops at "
+                        "the deciding operand (x == 0 or 1/x > y raises at "
+                        "x = 0)")
                 return False, (
-                    f"{fn}() is handed a fully built {rv[2][0][1]} of the "
-                    "evaluated operands: every operand is evaluated before the "
-                    f"first is looked at, so '{sym}' no longer stops at the "
-                    "deciding operand (x == 0 or 1/x > y raises at x = 0)")
-            return ok, f"{fn}(children), lazily" if ok else \
+                    f"the result is {fn}(...), a bool, where Python's '{sym}' "
+                    "gives the deciding operand itself: (x or y) + 1 at x = 0, "
+                    "y = 5 evaluates to 2, the code generated for the same node "
+                    "computes 6")
+            # the loop form: operands in order, the deciding one is returned
+            ELEM = ("rec", ("elem", ("field", f)), True, ())
+            stop_pol = sym == "or"
+            saw = set()
+            for ps in handler_summaries(model, model.nodes.get(cls), mem.node,
+                                        loop_mode="01"):
+                if ps.term != "return":
+                    return False, "a path does not return"
+                tests = [(pol, v) for _, pol, v in ps.conds]
+                n_rec = sum(1 for e in ps.events if e.kind == "rec")
+                if not tests:
+                    saw.add("empty")
+                    if ps.retval != ("const", not stop_pol):
+                        return False, (f"no operands: returns {ps.retval}, "
+                                       f"Python's empty '{sym}' chain is "
+                                       f"{not stop_pol}")
+                    continue
+                if len(tests) != 1 or n_rec != 1 or ps.retval != ELEM:
+                    return False, ("an operand is evaluated more than once, or "
+                                   "something other than the operand just "
+                                   "evaluated is returned")
+                pol, v = tests[0]
+                while v[0] == "unop" and v[1] == "Not":
+                    v, pol = v[2], not pol
+                if v != ELEM:
+                    return False, "the loop branches on something other than " \
+                        "the operand just evaluated"
+                saw.add("stop" if pol == stop_pol else "last")
+            ok = saw == {"empty", "stop", "last"}
+            return ok, (f"operands in order; the first that is "
+                        f"{'true' if stop_pol else 'false'} is returned, else the "
+                        "last") if ok else \
+                f"'{sym}' chain: paths {sorted(saw)}"
+        if sym in ("min", "max"):
+            fn = sym
+            ok = rv[0] == "call" and rv[1] == fn and _seq_over(rv[2][0], f)
+            return ok, f"{fn}(children)" if ok else \
                 f"result is not {fn}(rec(child) for child in children)"
     if kind == "compare":
         rv = rets[0].retval
